@@ -29,7 +29,7 @@ for n, (s, kind, v) in enumerate(outs):
         cn = T.cname.get(k.as_long()) if z3.is_int_value(k) else str(k)
     print(n, kind, cn, 'taint' if s.taint else '', vs[:150], 'nconds', len(s.conds))
 print('notes', sorted(set(en.notes)))
-if len(sys.argv) > 2 and sys.argv[2] not in ('obl','oblm'):
+if len(sys.argv) > 2 and sys.argv[2] not in ('obl','oblm','abs'):
     n = int(sys.argv[2]); s, kind, v = outs[n]
     for c_ in s.conds: print('  COND', c_.sexpr()[:600])
     v, s = en.term(v, s, escape=False) if kind == 'return' else (v, s)
@@ -55,6 +55,9 @@ if len(sys.argv) > 3 and sys.argv[2] == 'oblm':
         if re.search(sys.argv[3], label):
             r = solve.check(hyps, goal)
             print('OBL', label, r['result'])
+            if r['result'] == 'unknown':
+                print('   G', z3.simplify(goal).sexpr()[:1500])
+                for h in hyps: print('   H', z3.simplify(h).sexpr()[:400].replace('\n',' '))
             if r['result'] == 'sat':
                 m = r['model']
                 print('   G', z3.simplify(goal).sexpr()[:1200])
@@ -66,3 +69,42 @@ if len(sys.argv) > 3 and sys.argv[2] == 'oblm':
                     if z3.is_app(e) and e.num_args() > 0 and e.decl().name() in ('Field_tag','FieldsOkUpTo','lookup','nth','Sem_ok','Field_val','select','FieldsValUpTo','length','KnownKeysUpTo'):
                         print('   EV', e.sexpr()[:160].replace('\n',' '), '=>', str(m.eval(e, model_completion=True))[:120])
                 walk(z3.simplify(goal), set())
+if len(sys.argv) > 3 and sys.argv[2] == 'abs':
+    from pyvc import solve
+    from pyvc.values import ground_axioms, abstract_recs
+    cnt = 0
+    for (label, hyps, goal, taint) in en.obligations:
+        if re.search(sys.argv[3], label):
+            cnt += 1
+            if cnt != int(sys.argv[4]): continue
+            q = [z3.simplify(x) for x in list(hyps) + [z3.Not(goal)]]
+            ax = ground_axioms(q)
+            print('facts', len(ax))
+            s0 = z3.Solver(); s0.set('timeout', 20000); s0.add(*abstract_recs(q + ax)); r = s0.check(); print('abstract:', r)
+            if r == z3.sat:
+                m = s0.model()
+                for a in abstract_recs(ax):
+                    if z3.is_false(m.eval(a, model_completion=True)): print('VIOLATED?', a)
+                for d in m.decls():
+                    if d.arity() == 0: print('  M', d.name(), str(m[d])[:200])
+            if r == z3.sat:
+                from specs import inputs as SI
+                ws = [d for d in m.decls() if d.name().startswith('loop_wrapper')][0]()
+                kk = [d for d in m.decls() if d.name().startswith('k!')][0]()
+                cc = [d for d in m.decls() if d.name().startswith('loop_coercer')][0]()
+                n = length(ws)
+                w = nth(ws, n - 1 - kk)
+                c2 = V.Fun(V.fname(w), assoc_set(V.fbound(w), S('inner_coercer'), cc))
+                tests = {'len_take': length(take(ws, n - kk)) == n - kk,
+                         'okw': SI.okw(w), 'isfun': V.is_Fun(w),
+                         'den': SI.denote(c2) == SI.wrapB(w, SI.denote(cc)),
+                         'look': lookup(assoc_set(V.fbound(w), S('inner_coercer'), cc), S('inner_coercer')) == cc,
+                         'nth_take': nth(take(ws, n - kk), n - kk - 1) == w,
+                         'take_take': take(take(ws, n - kk), n - kk - 1) == take(ws, n - kk - 1),
+                         'wsok_unf': SI.WsOk(take(ws, n - kk)) == z3.And(SI.WsOk(take(take(ws, n - kk), length(take(ws, n - kk)) - 1)), SI.okw(nth(take(ws, n - kk), length(take(ws, n - kk)) - 1))),
+                         'rebr_unf': SI.RebR(take(ws, n - kk), SI.denote(cc)) == SI.RebR(take(ws, n - kk - 1), SI.wrapB(w, SI.denote(cc)))}
+                for k_, t_ in tests.items():
+                    print('  T', k_, m.eval(abstract_recs([z3.simplify(t_)])[0], model_completion=True))
+            for a in ax:
+                sx = a.sexpr()
+                if 'assoc_set' in sx and len(sx) < 1500: print('  AX', sx.replace('\n', ' ')[:700])
